@@ -2047,6 +2047,7 @@ func (s *Server) Serve(ln net.Listener) error {
 				"The connection cannot be served because Server.Concurrency limit exceeded")
 			c.Close()
 			s.setState(c, StateClosed)
+			releasePerIPConn(c)
 			if time.Since(lastOverflowErrorTime) > time.Minute {
 				s.logger().Printf("The incoming connection cannot be served, because %d concurrent connections are served. "+
 					"Try increasing Server.Concurrency", maxWorkersCount)
@@ -2255,6 +2256,7 @@ func (s *Server) ServeConn(c net.Conn) error {
 	if err != errHijacked {
 		errc := c.Close()
 		s.setState(c, StateClosed)
+		releasePerIPConn(c)
 		if err == nil {
 			err = errc
 		}
